@@ -7,19 +7,47 @@ Import ListNotations.
 Open Scope N_scope.
 
 (** No request, whatever its content, whatever the database (no well-formedness needed) and
-    whatever the user hooks do (including raising arbitrary exceptions), leaves the transmit lock
-    held. *)
+    whatever the user hooks return (any object), raise (including arbitrary exceptions) or update
+    (characteristic values, subscribed or not, with the notifications that entails in the middle
+    of the request), leaves the transmit lock held -- provided no GATT procedure lock is stuck and
+    the notification / indication hooks return or override (otherwise: C07_never_wedges_refuted). *)
 Theorem C07_never_wedges :
   forall (st : state) (r : att_request) (hk : hook_oracle),
-    tx_locked st = false -> tx_locked (fst (server_step st r hk)) = false.
+    tx_locked st = false -> proc_free st = true -> notif_hooks_return hk = true ->
+    tx_locked (fst (server_step st r hk)) = false /\ proc_free (fst (server_step st r hk)) = true.
 Proof. exact never_wedges. Qed.
+
+(** When the hooks of the request update no characteristic, nothing at all is needed. *)
+Theorem C07_never_wedges_no_updates :
+  forall (st : state) (r : att_request) (hk : hook_oracle),
+    tx_locked st = false -> h_acts hk = no_acts -> tx_locked (fst (server_step st r hk)) = false.
+Proof. exact never_wedges_no_updates. Qed.
 
 (** ... along every history of client PDUs, application writes, link-security changes,
     disconnections and reconnections. *)
 Theorem C07_never_wedges_history :
   forall (evs : list event) (st : state),
-    tx_locked st = false -> tx_locked (run_state V_fixed st evs) = false.
+    tx_locked st = false -> proc_free st = true -> forallb ev_quiet evs = true ->
+    tx_locked (run_state V_fixed st evs) = false /\ proc_free (run_state V_fixed st evs) = true.
 Proof. exact never_wedges_history. Qed.
+
+(** FULL STATEMENT of never_wedges (all hook behaviours); refuted: KNOWN-FINDING
+    notification-hook-exception-then-hook-update-wedges. *)
+Definition C07_never_wedges_statement : Prop :=
+  forall (evs : list event) (st : state),
+    wf_state st = true -> tx_locked st = false -> proc_free st = true ->
+    tx_locked (run_state V_fixed st evs) = false.
+
+Theorem C07_never_wedges_refuted :
+  exists st evs, wf_state st = true /\ tx_locked st = false /\ proc_free st = true
+    /\ snd (run V_fixed st evs) = [ [PWriteRsp]; []; [] ]
+    /\ tx_locked (run_state V_fixed st evs) = true.
+Proof.
+  exists demo_state, wedge_history.
+  exact (conj (proj1 notif_hook_then_update_wedges) (conj (proj1 (proj2 notif_hook_then_update_wedges))
+        (conj (proj1 (proj2 (proj2 notif_hook_then_update_wedges))) (conj (proj1 (proj2 (proj2 (proj2 notif_hook_then_update_wedges))))
+        (proj1 (proj2 (proj2 (proj2 (proj2 notif_hook_then_update_wedges))))))))).
+Qed.
 
 (** In an unlocked state the probe request of the harness (Read Request on handle 0) is answered by
     exactly one Error Response. *)
@@ -27,18 +55,26 @@ Theorem C07_probe_answered :
   forall st, tx_locked st = false -> r_out (handle V_fixed st (Read 0) no_hooks) = [PError 10 0 1].
 Proof. exact probe_answered. Qed.
 
-(** Exactly one PDU per request, at most one per command, one confirmation per indication -- for
+(** What a hook hands back with a plain [return] (nothing, bytes of any length, any object) has no
+    effect whatsoever. *)
+Theorem C07_hook_return_values_ignored :
+  forall v st rq hk (r : hook_rets), handle v st rq (with_rets hk r) = handle v st rq hk.
+Proof. exact returns_ignored. Qed.
+
+(** Exactly one RESPONSE per request, at most one per command, one confirmation per indication
+    (the notifications a hook's characteristic update sends meanwhile are not responses) -- for
     every state (no well-formedness of the database needed), every well-formed request and all hooks
-    that return, override or answer with a HookReturn* error, the 'written' hook returning
-    normally.  (Raising hooks and 'written' hooks that raise HookReturn*: see the _refuted theorems.) *)
+    that return, override, update characteristics or answer with a HookReturn* error, the 'written'
+    hook returning normally.  (Raising hooks and 'written' hooks that raise HookReturn*: _refuted.) *)
 Theorem C07_one_response_partial :
   forall (st : state) (r : att_request) (hk : hook_oracle),
-    tx_locked st = false -> wf_request (mtu_of st) r = true ->
+    tx_locked st = false -> proc_free st = true -> notif_hooks_return hk = true ->
+    wf_request (mtu_of st) r = true ->
     hooks_behave hk = true -> is_return (h_written hk) = true ->
-    let out := snd (server_step st r hk) in
-    (is_request r = true -> length out = 1%nat)
-    /\ (is_command r = true -> (length out <= 1)%nat)
-    /\ (is_indication r = true -> out = [PConfirmation]).
+    let rsp := filter is_rsp (snd (server_step st r hk)) in
+    (is_request r = true -> length rsp = 1%nat)
+    /\ (is_command r = true -> (length rsp <= 1)%nat)
+    /\ (is_indication r = true -> rsp = [PConfirmation]).
 Proof. exact one_response. Qed.
 
 (** FULL STATEMENT of one_response (all hook behaviours, unknown opcodes counted as requests);
@@ -46,7 +82,8 @@ Proof. exact one_response. Qed.
 Definition C07_one_response_statement : Prop :=
   forall (st : state) (r : att_request) (hk : hook_oracle),
     wf_state st = true -> tx_locked st = false -> wf_request (mtu_of st) r = true -> wf_hooks hk = true ->
-    (is_request r = true \/ (exists o b, r = UnknownOp o b)) -> length (snd (server_step st r hk)) = 1%nat.
+    (is_request r = true \/ (exists o b, r = UnknownOp o b)) ->
+    length (filter is_rsp (snd (server_step st r hk))) = 1%nat.
 
 Theorem C07_one_response_raising_hook_refuted :
   exists st r hk, wf_state st = true /\ wf_request 23 r = true /\ is_request r = true
@@ -62,18 +99,20 @@ Theorem C07_one_response_unknown_opcode_refuted :
   forall st op body, snd (server_step st (UnknownOp op body) no_hooks) = [].
 Proof. exact unknown_opcode_unanswered. Qed.
 
-(** Every PDU answering a request fits in the MTU in force (>= 23 by [wf_state]); for all hooks. *)
+(** Every PDU emitted while a request is handled fits ([pdu_fits]): a response in the MTU in force
+    (>= 23 by [wf_state]), a notification / indication sent by a hook's update in the MTU of the GATT
+    instance that sends it; for all hooks, whatever they return, raise or update. *)
 Theorem C07_fits_mtu :
   forall (st : state) (r : att_request) (hk : hook_oracle),
-    wf_state st = true -> tx_locked st = false -> wf_request (mtu_of st) r = true ->
-    Forall (fun p => att_size p <= mtu_of st) (snd (server_step st r hk)).
+    wf_state st = true -> wf_request (mtu_of st) r = true ->
+    Forall (fun p => pdu_fits st p = true) (snd (server_step st r hk)).
 Proof. exact fits_mtu. Qed.
 
 (** List responses: handles inside the requested range, strictly increasing, a single item
     length (the one announced), at least one item. *)
 Theorem C07_list_response_wf :
   forall (st : state) (r : att_request) (hk : hook_oracle) (s e : N),
-    wf_state st = true -> tx_locked st = false -> req_range r = Some (s, e) ->
+    wf_state st = true -> req_range r = Some (s, e) ->
     Forall (fun p => list_rsp_ok s e p = true) (snd (server_step st r hk)).
 Proof. exact list_response_wf. Qed.
 
@@ -85,13 +124,14 @@ Theorem C07_wf_invariant :
 Proof. exact step_wf. Qed.
 
 (** All of the above along EVERY session (sequence of client PDUs with arbitrary hook behaviour),
-    lifted by [fold_left]. *)
+    lifted by [fold_left]; the lock is free at the end when the notification hooks behaved. *)
 Theorem C07_session :
   forall (s : session) (st : state),
-    wf_state st = true -> tx_locked st = false -> inputs_ok st s ->
+    wf_state st = true -> inputs_ok st s ->
     every_step step_ok st s
-    /\ tx_locked (fold_left session_step s st) = false
-    /\ wf_state (fold_left session_step s st) = true.
+    /\ wf_state (fold_left session_step s st) = true
+    /\ (tx_locked st = false -> proc_free st = true -> quiet_notif s ->
+        tx_locked (fold_left session_step s st) = false /\ proc_free (fold_left session_step s st) = true).
 Proof. exact session_ok. Qed.
 
 (** The code before the repairs (V_orig), on a well-formed 11-attribute database: *)
@@ -110,14 +150,16 @@ Theorem C07_orig_unanswered_refuted :
      ReadByType128 1 65535 [0;1;2;3;4;5;6;7;8;9;10;11;12;13;14;15]].
 Proof. exact orig_unanswered. Qed.
 
-(** Non-vacuity: a 12-step session on the demo database satisfies the hypotheses of [C07_session];
-    its answers are the expected ones. *)
+(** Non-vacuity: a 13-step session on the demo database satisfies the hypotheses of [C07_session]
+    (the last request's read hook updates a subscribed characteristic and returns 600 bytes); its
+    answers are the expected ones. *)
 Example C07_nonvacuous :
-  wf_state demo_state = true /\ tx_locked demo_state = false /\ inputs_ok demo_state demo_session
-  /\ nth 1 (snd (run V_fixed demo_state (map (fun x => EvReq (fst x) (snd x)) demo_session))) []
-     = [PFindInfoRsp 1 [(1,[0;40]); (2,[2;40]); (3,[3;40]); (4,[0;42]); (5,[3;40]); (6,[25;42]);
-                        (7,[2;41]); (8,[1;40]); (9,[3;40]); (10,[1;42]); (11,[1;41])]].
+  wf_state demo_state = true /\ tx_locked demo_state = false /\ proc_free demo_state = true
+  /\ inputs_ok demo_state demo_session /\ quiet_notif demo_session
+  /\ nth 12 (snd (run V_fixed demo_state (map (fun x => EvReq (fst x) (snd x)) demo_session))) []
+     = [PNotification 6 [2]; PReadRsp [7; 7]].
 Proof.
-  split; [exact demo_wf|]. split; [reflexivity|]. split; [exact demo_session_inputs|].
+  split; [exact demo_wf|]. split; [reflexivity|]. split; [reflexivity|].
+  split; [exact (proj1 demo_session_inputs)|]. split; [exact (proj2 demo_session_inputs)|].
   rewrite demo_session_outputs. reflexivity.
 Qed.
